@@ -576,7 +576,7 @@ func checkUnmarshalText(text string) (cls string, err error) {
 func TestC15JSONText(t *testing.T) {
 	vh.Run(t, vh.Spec[JSONTextCase]{Property: "C15", Name: "TestC15JSONText",
 		Rule: "hand-built JSON objects under the documented wire names with a required member dropped (3 of 8) or empty (~8% each), a string member carrying legacy bait (' req=a@b '), one member retyped / upper-cased / duplicated, shuffled order, surrounding whitespace; other JSON values (null, arrays, numbers, strings, trailing data). Oracle: when encoding/json decodes the text into the attribute shape the result is exactly that interpretation, or an error iff a required member is empty - never the legacy interpretation; otherwise accepted results must follow from a requester token. Non-trivial: JSON attribute objects (complete or incomplete).",
-		Gen: genJSONText,
+		Gen:  genJSONText,
 		Exec: func(c JSONTextCase) (vh.Outcome, error) {
 			cls, err := checkUnmarshalText(c.Text)
 			return vh.Outcome{NonTrivial: strings.HasPrefix(cls, "json-"), Classes: []string{"kind=" + c.Kind, cls}}, err
